@@ -134,7 +134,8 @@ def classify(case, rej):
         for a, bb in zip(mfs, mfs[1:]):
             for n in bb["cmds"]:
                 ca, cb = a["cmds"].get(n), bb["cmds"][n]
-                if ca and (ca["imp"] != cb["imp"] or ca["oo"] != cb["oo"]) and ca["ins"] == cb["ins"] and ca["ver"] == cb["ver"] and not cb["gen"]:
+                # an input was ADDED or REMOVED (a mere move between the sections is not this class)
+                if ca and sorted(ca["imp"] + ca["oo"]) != sorted(cb["imp"] + cb["oo"]) and ca["ins"] == cb["ins"] and ca["ver"] == cb["ver"] and not cb["gen"]:
                     return FP["D2"]
     except Exception:
         return None
